@@ -69,3 +69,27 @@ Proof.
   - vm_compute. reflexivity.
   - vm_compute. discriminate.
 Qed.
+
+(* Finding F12 (repaired in /repo by "fix: d4 loader keeps a true node below an or node"): d4
+   writes a tautology as  o 1 0 / t 2 0 / 1 2 0 .  The loader BEFORE the repair (load_d4_f12_v0)
+   leaves the true node below the or node in the vector - the count is right, but the vector is
+   not what the queries expect (no_true_false fails; enumerate / sampling / atomic sets / to-cnf
+   panic on it).  The loader now turns the or node into a true node that its parent drops. *)
+Definition tautology_file : list d4token := [DOr; DTrue; DEdge 1 2 []].
+
+Theorem or_true_child_v0 : exists toks n C C' n',
+  d4_ok toks /\
+  load_d4_f12_v0 toks n = Some (C, n') /\ In TrueN C /\ no_true_false C = false /\
+  load_d4 toks n = Some (C', n') /\ no_true_false C' = true /\ check_wf C' n' = true /\
+  root_count C' = Z.of_nat (length (d4_models toks n')).
+Proof.
+  exists tautology_file, 1%nat,
+    [TrueN; Or [0%nat]; Lit 1; Lit (-1); Or [3%nat; 2%nat]; And [4%nat; 1%nat]],
+    [Lit 1; Lit (-1); Or [1%nat; 0%nat]; And [2%nat]], 1%nat.
+  split; [split|].
+  - intros from to fs H.
+    repeat (destruct H as [H|H]; [try discriminate; injection H as <- <- <-; repeat constructor; discriminate|]).
+    destruct H.
+  - eexists. vm_compute. reflexivity.
+  - repeat split; try (vm_compute; reflexivity). now left.
+Qed.
